@@ -104,10 +104,14 @@ def step (s : Store) (line : String) : Store × String :=
       match (getEntry s.kv k).lock with
       | some l =>
         if l.startTS == st && l.op == .pessimisticLock then
-          let req : PrewriteReq := { mutations := [{ op := .put, key := k, value := [0x50] }], primary := l.primary, startTS := st, forUpdateTS := l.forUpdateTS, ttl := l.ttl, actions := [.doCheck] }
+          let req : PrewriteReq := { mutations := [{ op := .put, key := k, value := [0x50] }], primary := l.primary, startTS := st, forUpdateTS := l.forUpdateTS, ttl := l.ttl / 2, actions := [.doCheck] }
           let (s', errs) := prewrite s req
           let isConflict := errs.any fun e => match e with | some (.conflict ..) => true | _ => false
-          (s', if isConflict then "FAIL write conflict re-checked over own pessimistic lock" else "ok")
+          let lost := !(errs.any Option.isSome) && (match (getEntry s'.kv k).lock with
+            | some n => n.startTS == st && n.op != .pessimisticLock && (n.ttl < l.ttl || (l.primary == k && n.minCommitTS < l.minCommitTS))
+            | none => false)
+          (s', if isConflict then "FAIL write conflict re-checked over own pessimistic lock"
+               else if lost then "FAIL prewrite over own pessimistic lock lost its ttl or min-commit-ts" else "ok")
         else (s, "ok n/a")
       | none => (s, "ok n/a")
     | _, _ => (s, "bad-op")
